@@ -262,4 +262,24 @@ theorem hasDerivAt_triRatio (c : ℝ) (nn l2 : ℝ → ℝ) (nn' l2' t : ℝ)
   field_simp
 
 
+/-! ### epic tet: sum of squared edge lengths, smooth-branch formula -/
+
+theorem hasDerivAt_sumsq (l1 l2 l3 : ℝ → ℝ) (a1 a2 a3 c4 c5 c6 t : ℝ)
+    (H1 : HasDerivAt l1 a1 t) (H2 : HasDerivAt l2 a2 t) (H3 : HasDerivAt l3 a3 t) :
+    HasDerivAt (fun t => l1 t ^ 2 + l2 t ^ 2 + l3 t ^ 2 + c4 + c5 + c6)
+      (2 * l1 t * a1 + 2 * l2 t * a2 + 2 * l3 t * a3) t := by
+  have h := ((H1.pow 2).add (H2.pow 2)).add (H3.pow 2)
+  have h' : HasDerivAt (fun t => l1 t ^ 2 + l2 t ^ 2 + l3 t ^ 2) _ t := h
+  have h'' := ((h'.add_const c4).add_const c5).add_const c6
+  exact h''.congr_deriv (by simp)
+
+/-- what `ref_node_tet_epic_quality` computes on its smooth branch: node 0 at `p`, everything else fixed -/
+noncomputable def tetEpicSmooth (n0 n1 n2 n3 : QNode ℝ) (p : V3 ℝ) : ℝ :=
+  let minDet := min (min (min (detOf n0.m) (detOf n1.m)) (detOf n2.m)) (detOf n3.m)
+  (c36 : ℝ) * (Real.sqrt minDet * tetVol p n1.x n2.x n3.x) ^ ((2 : ℝ) / 3) /
+    (ratioGeometric p n1.x n0.m n1.m ^ 2 + ratioGeometric p n2.x n0.m n2.m ^ 2 +
+     ratioGeometric p n3.x n0.m n3.m ^ 2 + ratioGeometric n1.x n2.x n1.m n2.m ^ 2 +
+     ratioGeometric n1.x n3.x n1.m n3.m ^ 2 + ratioGeometric n2.x n3.x n2.m n3.m ^ 2)
+
+
 end Refine.QualityDeriv
